@@ -81,7 +81,7 @@ def make_case(rng, tier):
     if rng.random() < 0.35:
         # canonical JSON text as payload (LF line ends, as every real payload has)
         data = canonjson.canon(jsonvals.rand_value(rng, 0, 3, 3) if dl < 2000 else {"k": ["v"] * (dl // 12)})
-    style = rng.choice(["gnupg", "gnupg_now", "gnupg_sigtype", "gnupg_sigtype", "v4prefix", "random", "long"])
+    style = rng.choice(["gnupg", "gnupg_now", "gnupg_sigtype", "gnupg_sigtype", "gnupg_version", "gnupg_version", "v4prefix", "random", "long"])
     if style == "gnupg":
         hdr = openpgp.gnupg_style_header(rng.randbytes(20), rng.randrange(2**32))
     elif style == "gnupg_now":
@@ -95,6 +95,18 @@ def make_case(rng, tier):
         h[1] = rng.choice([0x01, 0x01, 0x02, 0x10, 0x13, 0x18, 0x1F, 0x20, 0x28, 0x30, 0x40, 0x50, 0xFF])
         if rng.random() < 0.3:
             h[3] = rng.choice([0x02, 0x09, 0x0A, 0x0B])
+        hdr = bytes(h)
+    elif style == "gnupg_version":
+        # the layout of a real signature packet (internally consistent lengths), its leading version octet saying something other
+        # than 4 (the packet versions 3, 5, 6 of other OpenPGP generations; arbitrary values): the header is opaque bytes, and
+        # the digest's trailer is the fixed 04 FF + 32-bit length whatever the header says about itself
+        h = bytearray(openpgp.gnupg_style_header(rng.randbytes(20), rng.randrange(2**32)))
+        h[0] = rng.choice([0x05, 0x05, 0x06, 0x03, 0x02, 0x00, 0xFF, 0x84, 0x34])
+        if rng.random() < 0.4:
+            h[1] = rng.choice([0x00, 0x01])
+        if rng.random() < 0.3:
+            # version 6 layout: four-octet subpacket length
+            h[4:6] = bytes([0, 0]) + bytes(h[4:6])
         hdr = bytes(h)
     elif style == "v4prefix":
         hdr = bytes([0x04, rng.randrange(256), rng.randrange(256), rng.randrange(256)]) + rng.randbytes(rng.choice([0, 2, 30]))
@@ -136,6 +148,18 @@ def corruptions(key, data, hdr, entry, rng):
         key.seed, __import__("hashlib").sha256(hdr + data + b"\x04\xff" + openpgp.be32(len(hdr))).digest()).hex()), key.hex, data
     yield "sig_le_trailer", dict(entry, signature=ed25519.sign(
         key.seed, __import__("hashlib").sha256(data + hdr + b"\x04\xff" + len(hdr).to_bytes(4, "little")).digest()).hex()), key.hex, data
+    import hashlib as _hl
+
+    # digests other OpenPGP packet versions define over the same inputs (none of them is the one the rule states)
+    yield "sig_v5_trailer", dict(entry, signature=ed25519.sign(
+        key.seed, _hl.sha256(data + hdr + b"\x05\xff" + len(hdr).to_bytes(8, "big")).digest()).hex()), key.hex, data
+    yield "sig_v5_document_trailer", dict(entry, signature=ed25519.sign(
+        key.seed, _hl.sha256(data + hdr + b"\x00" * 6 + b"\x05\xff" + len(hdr).to_bytes(8, "big")).digest()).hex()), key.hex, data
+    yield "sig_v6_trailer", dict(entry, signature=ed25519.sign(
+        key.seed, _hl.sha256(data + hdr + b"\x06\xff" + openpgp.be32(len(hdr))).digest()).hex()), key.hex, data
+    yield "sig_own_version_trailer", dict(entry, signature=ed25519.sign(
+        key.seed, _hl.sha256(data + hdr + hdr[:1] + b"\xff" + openpgp.be32(len(hdr))).digest()).hex()), key.hex, data
+    yield "sig_v3_no_trailer", dict(entry, signature=ed25519.sign(key.seed, _hl.sha256(data + hdr).digest()).hex()), key.hex, data
     yield "sig_sha512", dict(entry, signature=ed25519.sign(
         key.seed, __import__("hashlib").sha512(data + hdr + b"\x04\xff" + openpgp.be32(len(hdr))).digest()).hex()), key.hex, data
 
